@@ -172,7 +172,19 @@ def composed_programs(r, n):
     for P in producers:
         progs.extend(consumers(P))
     progs = r.sample(progs, min(n, len(progs)))
-    return [(gen.tt(p), gen.tt(env)) for p in progs]
+    # the OPERATOR (and the quote / apply / softfork keywords) computed at run time, so that it is a heap atom
+    # or a substring view rather than an inline small integer: (a (c <computed opcode> (q . args)) ())
+    for code in (1, 2, 4, 5, 9, 11, 16, 18, 23, 29, 32, 36, 60, 0x0f, 0x41):
+        b = bytes([code])
+        makers = [op(12, q(b + b"\xff\xff\xff\xff"), q(b""), q(i2a(1))), op(12, q(b"\x7f\x7f\x7f\x7f" + b), q(i2a(4))),
+                  op(14, q(b)), op(14, q(b""), q(b)), op(12, i2a(1), q(i2a(1)), q(i2a(2)))]
+        args = {1: i2a(7), 2: lst(q(q(i2a(7))), q(b"")), 36: lst(q(i2a(300)), q(b""), q(q(i2a(1))), q(b""))}.get(code, lst(q(i2a(3)), q(i2a(4))))
+        for mk in makers:
+            progs.append(op(A, op(C, mk, q(args)), q(b"")) if mk[1] != lst(i2a(1), q(i2a(1)), q(i2a(2))) else None)
+            progs.append(op(A, op(C, mk, q(args)), i2a(1)))
+        progs = [x for x in progs if x is not None]
+    env2 = b"\x7f" + bytes([16]) + b"\x7f\x7f\x7f\x7f"
+    return [(gen.tt(p), gen.tt(env)) for p in progs] + [(gen.tt(p), gen.tt(bytes([0x7f, c, 0x7f, 0x7f, 0x7f]))) for p in progs[-20:] for c in (16, 1)]
 
 
 def algebraic_programs(r, n):
